@@ -1,7 +1,7 @@
 import TRV.Proofs.Sound
 import TRV.Proofs.Drivers
 import TRV.Proofs.Engine
-import TRV.Proofs.Complete
+import TRV.Proofs.CompleteDirect
 set_option linter.unusedSimpArgs false
 /-!
 # C02 — Recognition completeness: every genuine reply form yields its hop
@@ -192,6 +192,42 @@ theorem c02_sack_te_bytes {s : SackSt} {t : Nat} {p : Sent}
       .accept t r (decide (r = s.cfg.target)) p.time :=
   sack_te_complete hl htg hr hrest b1 b2 b3 b5 b6 b7 b8 b9 b10 b11 b12 b13 b14 hsize hlk
 
+/-- ICMP/IPv4, bytes, destination form: echo reply of the target -/
+theorem c02_icmp4_echo_bytes {s : IcmpSt} {t : Nat} {p : Sent}
+    {otos oid ottl ock code ick : Nat} {body : Bytes}
+    (hl : s.cfg.localA.length = 4) (htg : s.cfg.target.length = 4)
+    (b1 : otos < 256) (b2 : oid < 65536) (b3 : ottl < 256) (b4 : code < 256)
+    (b13 : s.cfg.echoId < 65536) (b14 : t < 65536)
+    (hsize : 28 + body.length ≤ 1024) (hlk : icmpLookup s t = some p) :
+    icmpRecv s (icmpMsg4 otos oid ottl ock s.cfg.target s.cfg.localA 0 code ick (be16 s.cfg.echoId ++ be16 t) body) =
+      .accept t s.cfg.target true p.time :=
+  icmp4_echo_complete hl htg b1 b2 b3 b4 b13 b14 hsize hlk
+
+/-- TCP SYN, bytes, direct forms: SYN-ACK / RST / RST-ACK without TCP options (any other flag bits,
+    sequence number, window, checksum, urgent pointer, payload; DF or not), acknowledging the last
+    probe when ACK is set (replies WITH options: `c02_tcp_direct_view` + the catalogue run) -/
+theorem c02_tcp_direct_bytes {s : TcpSt} {last : Sent}
+    {otos oid ff ottl ock seq ack fl win ck urg : Nat} {pl : Bytes}
+    (hl : s.cfg.localA.length = 4) (htg : s.cfg.target.length = 4)
+    (h1 : otos < 256) (h2 : oid < 65536) (h3 : ottl < 256) (hff : ff < 65536) (hfr : ff % 16384 = 0)
+    (b1 : s.cfg.tport < 65536) (b2 : s.cfg.lport < 65536) (b3 : seq < 4294967296) (b4 : ack < 4294967296) (b5 : fl < 256)
+    (hfl : ((fl / 2) % 2 = 1 ∧ (fl / 16) % 2 = 1) ∨ (fl / 4) % 2 = 1)
+    (hlast : s.sent.getLast? = some last)
+    (hack : (fl / 16) % 2 = 1 → last.seq = (ack + 4294967295) % 4294967296)
+    (hsize : 40 + pl.length ≤ 1024) :
+    tcpRecv s (tcpMsg4 otos oid ff ottl ock s.cfg.target s.cfg.localA s.cfg.tport s.cfg.lport seq ack fl win ck urg pl) =
+      .accept last.ttl s.cfg.target true last.time :=
+  tcp_direct_complete hl htg h1 h2 h3 hff hfr b1 b2 b3 b4 b5 hfl hlast hack hsize
+
+/-- non-vacuity: a SYN-ACK with DF, ECE and a payload byte acknowledging the last probe (seq 0xffffffff:
+    the acknowledgement number wraps to 0) -/
+example :
+    let cfg : TcpCfg := { localA := [192,0,2,2], lport := 40000, target := [198,51,100,9], tport := 443, loosen := false,
+                          paris := false, baseId := 41820, seq := 4294967295 }
+    let st : TcpSt := { cfg, sent := [{ ttl := 4, id := 41824, seq := 4294967295, time := 77 }] }
+    tcpRecv st (tcpMsg4 0 0 0x4000 61 0xbeef [198,51,100,9] [192,0,2,2] 443 40000 0x51f3a9c7 0 0x52 65535 0 0 [0xaa]) =
+      .accept 4 [198,51,100,9] true 77 := by decide +kernel
+
 /-- non-vacuity of the byte-level theorems: a concrete RFC 4884 style reply (quote padded to 128
     bytes + an extension object) for TTL 3 is accepted -/
 example :
@@ -206,6 +242,8 @@ example :
 #print axioms c02_udp4_err_bytes
 #print axioms c02_tcp_te_bytes
 #print axioms c02_sack_te_bytes
+#print axioms c02_icmp4_echo_bytes
+#print axioms c02_tcp_direct_bytes
 #print axioms c02_icmp4_te_view
 #print axioms c02_icmp4_echo_view
 #print axioms c02_udp4_view
